@@ -46,7 +46,7 @@ PROFILE = gf.make_profile(
 PROFILE_NAMES = gf.make_profile(
     kinds=dict(PROFILE["kinds"]), dep_index=70, perfect_nest=25,
     helpers=(0, 0), nstmts=(2, 4), array_intrinsics=False, functions=False,
-    extra_int_scalars=("d_i", "d1_i", "d_j"))
+    extra_int_scalars=("d_i", "d1_i", "d_j", "d_l"))
 
 TIMEOUT = 30
 
